@@ -12,6 +12,10 @@
 //!   and after installation; emissions under a local recorder in between), under the same scheduler. The
 //!   global cell can be set once per process, so every case runs in a child process (this binary re-executed
 //!   with `MV_C02_CHILD=<spec>`); the child prints the trace, the per-call results and its oracle verdicts.
+//!   Round 3: the programs also contain FAULTS and RE-ENTRANCY inside the call into the recorder — the recorder
+//!   double panics inside the call and the thread catches it and goes on (`p`), the double emits again from
+//!   inside `register_*`/`describe_*` one or two levels deep (`n<k>`), the closure handed to `with_recorder`
+//!   emits (`i`), a local scope unwinds because the local recorder panics (`y<l>`).
 
 use crate::sched;
 use crate::util::*;
@@ -36,6 +40,30 @@ static CLOCK: AtomicUsize = AtomicUsize::new(0);
 thread_local! {
     /// what the emissions of this thread reached since the log was last taken
     static SEEN: RefCell<Vec<String>> = RefCell::new(Vec::new());
+    /// the next recorder double called on this thread panics (once) after it has logged the call
+    static PANIC_NEXT: std::cell::Cell<bool> = std::cell::Cell::new(false);
+    /// (levels, form): the next `levels` recorder doubles called on this thread emit once more, through form
+    /// `form`, from INSIDE the call (after logging it)
+    static NEST: std::cell::Cell<(usize, usize)> = std::cell::Cell::new((0, 0));
+}
+
+const DOUBLE_PANIC: &str = "c02: recorder double panics inside the call";
+
+/// what a recorder double does, on request, from inside a call into it: emit again / panic
+fn react() {
+    let (levels, form) = NEST.with(|n| n.get());
+    if levels > 0 {
+        NEST.with(|n| n.set((levels - 1, form)));
+        let before = SEEN.with(|s| s.borrow().len());
+        emit(form);
+        // the no-op recorder leaves no trace: make "the inner emission reached nothing" visible
+        if SEEN.with(|s| s.borrow().len()) == before {
+            SEEN.with(|s| s.borrow_mut().push("none".to_string()));
+        }
+    }
+    if PANIC_NEXT.with(|p| p.replace(false)) {
+        panic!("{}", DOUBLE_PANIC);
+    }
 }
 
 fn tick() -> usize {
@@ -50,6 +78,7 @@ fn reset_counters() {
 fn hit(id: usize, intact: bool) {
     CALLS[id % NREC].fetch_add(1, Ordering::SeqCst);
     SEEN.with(|s| s.borrow_mut().push(if intact { format!("some{}", id) } else { "some9999".to_string() }));
+    react();
 }
 /// result of one emission: what it reached (`none` = no double was called, i.e. the no-op recorder)
 fn take_seen() -> String {
@@ -246,6 +275,7 @@ impl Recorder for LRec {
 impl LRec {
     fn seen(&self) {
         SEEN.with(|s| s.borrow_mut().push(format!("local{}", self.id)));
+        react();
     }
 }
 
@@ -557,6 +587,29 @@ enum GCall {
     Emit(usize),
     /// emission inside `with_local_recorder(local id, ..)`, through form `f`
     EmitLocal(usize, usize),
+    /// emission (form `f`) whose recorder call panics if it reaches a recorder double; caught by the thread
+    EmitPanic(usize),
+    /// emission (form `f`) whose recorder double emits again from inside the call, `k` levels deep
+    EmitNested(usize, usize),
+    /// `with_recorder(|r| { r.describe_counter(..); <emission through form f> })`
+    EmitIn(usize),
+    /// emission (form `f`) inside `with_local_recorder(local id, ..)` whose recorder panics; caught OUTSIDE the scope
+    EmitLocalPanic(usize, usize),
+}
+
+/// runs `f`, catching the doubles' own panic (anything else is re-raised); true = it panicked
+fn catching(f: impl FnOnce()) -> bool {
+    match std::panic::catch_unwind(std::panic::AssertUnwindSafe(f)) {
+        Ok(()) => false,
+        Err(p) => {
+            let ours = p.downcast_ref::<String>().map_or(false, |m| m == DOUBLE_PANIC)
+                || p.downcast_ref::<&str>().map_or(false, |m| *m == DOUBLE_PANIC);
+            if !ours {
+                std::panic::resume_unwind(p);
+            }
+            true
+        }
+    }
 }
 
 const NFORMS: usize = 6;
@@ -588,6 +641,14 @@ fn gprog_tok(p: &[GCall], for_model: bool) -> String {
             (GCall::Emit(f), false) => format!("e{}", f),
             (GCall::EmitLocal(l, _), true) => format!("x{}", l),
             (GCall::EmitLocal(l, f), false) => format!("x{}f{}", l, f),
+            (GCall::EmitPanic(_), true) => "p".to_string(),
+            (GCall::EmitPanic(f), false) => format!("p{}", f),
+            (GCall::EmitNested(k, _), true) => format!("n{}", k),
+            (GCall::EmitNested(k, f), false) => format!("n{}f{}", k, f),
+            (GCall::EmitIn(_), true) => "i".to_string(),
+            (GCall::EmitIn(f), false) => format!("i{}", f),
+            (GCall::EmitLocalPanic(l, _), true) => format!("y{}", l),
+            (GCall::EmitLocalPanic(l, f), false) => format!("y{}f{}", l, f),
         })
         .collect::<Vec<_>>()
         .join("+")
@@ -614,6 +675,16 @@ fn parse_gprogs(s: &str) -> Vec<Vec<GCall>> {
                             let (l, f) = rest.split_once('f').unwrap();
                             GCall::EmitLocal(l.parse().unwrap(), f.parse().unwrap())
                         }
+                        "p" => GCall::EmitPanic(rest.parse().unwrap()),
+                        "i" => GCall::EmitIn(rest.parse().unwrap()),
+                        "n" => {
+                            let (k, f) = rest.split_once('f').unwrap();
+                            GCall::EmitNested(k.parse().unwrap(), f.parse().unwrap())
+                        }
+                        "y" => {
+                            let (l, f) = rest.split_once('f').unwrap();
+                            GCall::EmitLocalPanic(l.parse().unwrap(), f.parse().unwrap())
+                        }
                         _ => panic!("bad child spec {}", c),
                     }
                 })
@@ -623,6 +694,18 @@ fn parse_gprogs(s: &str) -> Vec<Vec<GCall>> {
 }
 
 const API_POINT: &str = "api.call";
+
+/// for an emission without a local recorder: (number of lookups it makes when every one of them finds the
+/// installed recorder, whether the recorder double then panics); None for the other calls
+fn global_shape(c: &GCall) -> Option<(usize, bool)> {
+    match c {
+        GCall::Emit(_) => Some((1, false)),
+        GCall::EmitPanic(_) => Some((1, true)),
+        GCall::EmitNested(k, _) => Some((k + 1, false)),
+        GCall::EmitIn(_) => Some((2, false)),
+        _ => None,
+    }
+}
 
 struct Ev {
     start: usize,
@@ -640,6 +723,15 @@ fn child(spec: &str) {
         if parts[1] == "-" { vec![] } else { parts[1].split('.').map(|x| x.parse().unwrap()).collect() };
     let salt: usize = parts[2].parse().unwrap();
     let mut fails: Vec<(String, String)> = vec![];
+    // the doubles' ordered panics are part of the input: keep them off stderr, leave every other panic loud
+    let default_hook = std::panic::take_hook();
+    std::panic::set_hook(Box::new(move |info| {
+        let ours = info.payload().downcast_ref::<String>().map_or(false, |m| m == DOUBLE_PANIC)
+            || info.payload().downcast_ref::<&str>().map_or(false, |m| *m == DOUBLE_PANIC);
+        if !ours {
+            default_hook(info);
+        }
+    }));
 
     let events: Arc<Mutex<Vec<Vec<Ev>>>> = Arc::new(Mutex::new((0..progs.len()).map(|_| vec![]).collect()));
     let mut bodies: Vec<Box<dyn FnOnce() + Send + 'static>> = vec![];
@@ -664,6 +756,41 @@ fn child(spec: &str) {
                         let lrec = LRec { id: l };
                         metrics::with_local_recorder(&lrec, || emit(f));
                         take_seen()
+                    }
+                    GCall::EmitPanic(f) => {
+                        PANIC_NEXT.with(|p| p.set(true));
+                        let panicked = catching(|| emit(f));
+                        // not consumed = no recorder double was reached (the no-op recorder does not panic)
+                        PANIC_NEXT.with(|p| p.set(false));
+                        format!("{}{}", take_seen(), if panicked { "!" } else { "" })
+                    }
+                    GCall::EmitNested(k, f) => {
+                        NEST.with(|n| n.set((k, f)));
+                        emit(f);
+                        NEST.with(|n| n.set((0, 0)));
+                        take_seen()
+                    }
+                    GCall::EmitIn(f) => {
+                        metrics::with_recorder(|r| {
+                            let before = SEEN.with(|s| s.borrow().len());
+                            r.describe_counter(KeyName::from_const_str("c02.outer"), None, SharedString::const_str(""));
+                            if SEEN.with(|s| s.borrow().len()) == before {
+                                SEEN.with(|s| s.borrow_mut().push("none".to_string()));
+                            }
+                            let before = SEEN.with(|s| s.borrow().len());
+                            emit(f);
+                            if SEEN.with(|s| s.borrow().len()) == before {
+                                SEEN.with(|s| s.borrow_mut().push("none".to_string()));
+                            }
+                        });
+                        take_seen()
+                    }
+                    GCall::EmitLocalPanic(l, f) => {
+                        let lrec = LRec { id: l };
+                        PANIC_NEXT.with(|p| p.set(true));
+                        let panicked = catching(|| metrics::with_local_recorder(&lrec, || emit(f)));
+                        PANIC_NEXT.with(|p| p.set(false));
+                        format!("{}{}", take_seen(), if panicked { "!" } else { "" })
                     }
                 };
                 let end = tick();
@@ -731,8 +858,8 @@ fn child(spec: &str) {
     let mut first_dispatch_end: Option<usize> = None;
     for (t, prog) in progs.iter().enumerate() {
         for (i, c) in prog.iter().enumerate() {
-            if let (GCall::Emit(_), Some(ev)) = (c, events[t].get(i)) {
-                if ev.result.starts_with("some") {
+            if let (Some(_), Some(ev)) = (global_shape(c), events[t].get(i)) {
+                if ev.result.split('&').any(|p| p.starts_with("some")) {
                     first_dispatch_end = Some(first_dispatch_end.map_or(ev.end, |x: usize| x.min(ev.end)));
                 }
             }
@@ -751,25 +878,34 @@ fn child(spec: &str) {
                     t,
                     i,
                     match c {
-                        GCall::Emit(f) | GCall::EmitLocal(_, f) => form_name(*f),
-                        _ => "",
+                        GCall::Emit(f) | GCall::EmitLocal(_, f) => form_name(*f).to_string(),
+                        GCall::EmitPanic(f) => format!("{}, the recorder panics inside the call, caught", form_name(*f)),
+                        GCall::EmitNested(k, f) => format!("{}, the recorder emits again from inside the call, {} deep", form_name(*f), k),
+                        GCall::EmitIn(f) => format!("{} from inside a with_recorder closure", form_name(*f)),
+                        GCall::EmitLocalPanic(_, f) => format!("{} under a local recorder that panics, caught outside the scope", form_name(*f)),
+                        _ => String::new(),
                     },
                     ev.result,
                     gprogs_tok(&progs, false),
                     sched::sched_tok(&run.trace.iter().map(|(t, _)| *t).collect::<Vec<_>>())
                 )
             };
-            match c {
-                GCall::Emit(_) => {
-                    let to_winner = winner.map_or(false, |w| ev.result == format!("some{}", w));
-                    if to_winner {
-                        delivered += 1;
-                    }
-                    if ev.result != "none" && !to_winner {
+            match (c, global_shape(c)) {
+                (_, Some((lookups, panics))) => {
+                    // an emission (possibly with emissions from inside it) without a local recorder
+                    let unwound = ev.result.ends_with('!');
+                    let parts: Vec<&str> = ev.result.trim_end_matches('!').split('&').collect();
+                    let wtok = winner.map(|w| format!("some{}", w));
+                    let n_to_winner = parts.iter().filter(|p| Some(**p) == wtok.as_deref()).count();
+                    delivered += n_to_winner;
+                    // "fully delivered": every lookup this call makes found the installed recorder (and the
+                    // double's panic, if one was ordered, came back to the caller)
+                    let full = n_to_winner == lookups && parts.len() == lookups && unwound == panics;
+                    if parts.iter().any(|p| *p != "none" && Some(*p) != wtok.as_deref()) || (unwound && !panics) {
                         fails.push(("an emission reached something other than the installed recorder or the no-op recorder".into(), desc()));
                     }
                     if let Some(fd) = first_dispatch_end {
-                        if fd < ev.start && !to_winner {
+                        if fd < ev.start && !full {
                             fails.push((
                                 "an emission that started after another emission had been dispatched to the installed recorder did not reach it".into(),
                                 desc(),
@@ -777,23 +913,74 @@ fn child(spec: &str) {
                         }
                     }
                     if let Some(oe) = ok_end {
-                        if oe < ev.start && !to_winner {
+                        if oe < ev.start && !full {
                             fails.push((
                                 "an emission that started after set_global_recorder had returned Ok did not reach the installed recorder".into(),
                                 desc(),
                             ));
                         }
                     }
-                    if first_install_start.map_or(true, |fi| ev.end < fi) && ev.result != "none" {
+                    if first_install_start.map_or(true, |fi| ev.end < fi) && parts.iter().any(|p| *p != "none") {
                         fails.push(("an emission that completed before any installation began had an effect".into(), desc()));
                     }
+                    // inside one call: once a lookup of this call found the recorder, the later ones (made from
+                    // inside that dispatch) must find it too
+                    if let Some(p0) = parts.iter().position(|p| p.starts_with("some")) {
+                        if parts[p0..].iter().any(|p| Some(*p) != wtok.as_deref()) || (matches!(c, GCall::EmitNested(..)) && parts.len() != lookups) {
+                            fails.push((
+                                "an emission made from inside a call that had been dispatched to the installed recorder did not reach that recorder".into(),
+                                desc(),
+                            ));
+                        }
+                    }
                 }
-                GCall::EmitLocal(l, _) => {
+                (GCall::EmitLocal(l, _), _) => {
                     if ev.result != format!("local{}", l) {
                         fails.push(("an emission under a local recorder did not reach exactly that recorder".into(), desc()));
                     }
                 }
-                GCall::Install(_) => {}
+                (GCall::EmitLocalPanic(l, _), _) => {
+                    if ev.result != format!("local{}!", l) {
+                        fails.push(("an emission under a local recorder did not reach exactly that recorder".into(), desc()));
+                    }
+                }
+                _ => {}
+            }
+        }
+    }
+    // program order on ONE thread (no clock needed): after an emission of this thread has reached the installed
+    // recorder, every later emission of the same thread without a local recorder reaches it in full —
+    // whatever happened in between (a caught panic inside a recorder call, a local scope that unwound, nesting)
+    for (t, prog) in progs.iter().enumerate() {
+        let mut reached: Option<usize> = None;
+        for (i, c) in prog.iter().enumerate() {
+            let ev = match events[t].get(i) {
+                Some(e) => e,
+                None => break,
+            };
+            if let Some((lookups, panics)) = global_shape(c) {
+                let parts: Vec<&str> = ev.result.trim_end_matches('!').split('&').collect();
+                let all_some = parts.iter().all(|p| p.starts_with("some"));
+                if let Some(j) = reached {
+                    if !(all_some && parts.len() == lookups && ev.result.ends_with('!') == panics) {
+                        fails.push((
+                            "a thread whose emission had reached the installed recorder later emitted (no local recorder) and did not reach it".into(),
+                            format!(
+                                "thread {}: call {} answered {}, later call {} answered {}; programs {} schedule {}",
+                                t,
+                                j,
+                                events[t][j].result,
+                                i,
+                                ev.result,
+                                gprogs_tok(&progs, false),
+                                sched::sched_tok(&run.trace.iter().map(|(t, _)| *t).collect::<Vec<_>>())
+                            ),
+                        ));
+                    }
+                }
+                if reached.is_none() && parts.iter().any(|p| p.starts_with("some")) {
+                    reached = Some(i);
+                }
             }
         }
     }
@@ -929,6 +1116,23 @@ fn one_global(cfg: &Cfg, out: &mut Out, progs: &[Vec<GCall>], schedule: &[usize]
         out.nontrivial();
         out.count("global.thread.saw.before.and.after");
     }
+    // a thread whose recorder call panicked (delivered, caught) and which emitted again afterwards; an emission
+    // made from inside a dispatched call
+    for th in res_part.split(',') {
+        let rs: Vec<&str> = th.split('+').collect();
+        if let Some(p) = rs.iter().position(|r| r.starts_with("some") && r.ends_with('!')) {
+            if rs[p + 1..].iter().any(|r| r.starts_with("some")) {
+                out.nontrivial();
+                out.count("global.thread.emitted.after.caught.recorder.panic");
+            }
+        }
+        if rs.iter().any(|r| r.starts_with("some") && r.contains('&')) {
+            out.count("global.emission.from.inside.dispatched.call");
+        }
+        if rs.iter().any(|r| r.starts_with("none&some")) {
+            out.count("global.closure.outer.noop.inner.global");
+        }
+    }
     g
 }
 
@@ -948,7 +1152,14 @@ fn gen_gprogs(r: &mut Rng) -> Vec<Vec<GCall>> {
             } else if r.chance(1, 6) {
                 p.push(GCall::EmitLocal(20 + r.below(4), r.below(NFORMS)));
             } else {
-                p.push(GCall::Emit(r.below(NFORMS)));
+                let f = r.below(NFORMS);
+                p.push(match r.below(10) {
+                    0 => GCall::EmitPanic(f),
+                    1 => GCall::EmitNested(r.range(1, 2), f),
+                    2 => GCall::EmitIn(f),
+                    3 if r.chance(1, 2) => GCall::EmitLocalPanic(20 + r.below(4), f),
+                    _ => GCall::Emit(f),
+                });
             }
         }
         progs.push(p);
@@ -959,6 +1170,19 @@ fn gen_gprogs(r: &mut Rng) -> Vec<Vec<GCall>> {
             let f = r.below(NFORMS);
             progs[t].push(GCall::Emit(f));
         }
+    }
+    // the thread that goes on after a fault: a caught panic inside a recorder call (or a local scope that
+    // unwound, or an emission from inside the recorder), then a plain emission of the same thread
+    if r.chance(1, 3) {
+        let t = r.below(n);
+        let f = r.below(NFORMS);
+        progs[t].push(match r.below(4) {
+            0 => GCall::EmitNested(r.range(1, 2), f),
+            1 => GCall::EmitLocalPanic(20 + r.below(4), f),
+            _ => GCall::EmitPanic(f),
+        });
+        let f = r.below(NFORMS);
+        progs[t].push(GCall::Emit(f));
     }
     progs
 }
@@ -1029,6 +1253,28 @@ pub fn run(cfg: &Cfg, out: &mut Out) {
             one_global(cfg, out, &progs, &sch, salt);
         }
     }
+    // faults inside recorder calls and re-entrant emissions (witness shapes of seeded defect C02-6: a per-thread
+    // "inside the global recorder" flag that an unwinding call leaves set): emit, panic inside the recorder
+    // (caught), emit again; the recorder / the with_recorder closure emitting from inside the call; a local
+    // scope that unwinds; all before, across and after the installation
+    let gcorpus2: Vec<(Vec<Vec<GCall>>, Vec<usize>)> = vec![
+        (vec![vec![GCall::Install(1), GCall::Emit(1), GCall::EmitPanic(1), GCall::Emit(2), GCall::EmitPanic(0), GCall::Emit(0)],
+              vec![GCall::Emit(3), GCall::Emit(4)]],
+         vec![0, 0, 0, 0, 1, 1, 1, 0, 0, 0, 0, 0, 0, 1, 1, 1]),
+        (vec![vec![GCall::EmitPanic(2), GCall::EmitNested(2, 1), GCall::EmitIn(3), GCall::EmitNested(1, 5), GCall::Emit(0)],
+              vec![GCall::Install(2)]],
+         vec![0, 0, 0, 1, 1, 0, 0, 0, 1, 1, 1, 0]),
+        (vec![vec![GCall::EmitIn(1), GCall::EmitLocalPanic(22, 1), GCall::Emit(1), GCall::EmitPanic(3), GCall::EmitNested(1, 2)],
+              vec![GCall::Install(3), GCall::EmitPanic(4), GCall::Emit(4)],
+              vec![GCall::Install(4), GCall::EmitNested(2, 0), GCall::Emit(5)]],
+         vec![0, 0, 1, 1, 0, 1, 2, 2, 1, 0, 0, 0, 2, 2, 2, 1, 1, 1, 0, 0, 2, 2, 2, 2, 2, 2, 1, 1, 1, 0, 0, 0, 0]),
+    ];
+    for (ci, (progs, sch)) in gcorpus2.into_iter().enumerate() {
+        for salt in [0usize, 3] {
+            out.case(&format!("global fault corpus {} salt {}", ci, salt));
+            one_global(cfg, out, &progs, &sch, salt);
+        }
+    }
     for i in 0..cfg.cases {
         let mut r = root.fork(i as u64);
         out.case(&format!("seed={} i={}", cfg.seed, i));
@@ -1053,6 +1299,10 @@ pub fn run(cfg: &Cfg, out: &mut Out) {
                     GCall::Install(id) => out.count(&format!("global.install.{}", kind_name(kind_of(*id, salt)))),
                     GCall::Emit(f) => out.count(&format!("global.emit.{}", form_name(*f))),
                     GCall::EmitLocal(_, _) => out.count("global.emit.under-local"),
+                    GCall::EmitPanic(_) => out.count("global.emit.recorder-panics"),
+                    GCall::EmitNested(k, _) => out.count(&format!("global.emit.recorder-emits.depth{}", k)),
+                    GCall::EmitIn(_) => out.count("global.emit.from-inside-closure"),
+                    GCall::EmitLocalPanic(_, _) => out.count("global.emit.under-local.recorder-panics"),
                 }
             }
         }
@@ -1120,6 +1370,8 @@ pub fn run(cfg: &Cfg, out: &mut Out) {
             vec![vec![GCall::Emit(1), GCall::Emit(0)], vec![GCall::Install(1)]],
             vec![vec![GCall::Install(1), GCall::Emit(2)], vec![GCall::Emit(3), GCall::Install(2)]],
             vec![vec![GCall::Emit(1), GCall::EmitLocal(20, 1), GCall::Emit(1)], vec![GCall::Install(1)], vec![GCall::Install(2)]],
+            vec![vec![GCall::Emit(1), GCall::EmitPanic(1), GCall::Emit(0)], vec![GCall::Install(1)]],
+            vec![vec![GCall::EmitNested(1, 1), GCall::EmitIn(2)], vec![GCall::Install(1)]],
         ];
         for (ci, progs) in gconfigs.into_iter().enumerate() {
             out.case(&format!("global exhaustive {}", gprogs_tok(&progs, true)));
